@@ -27,7 +27,7 @@ def run_one(patch, props, slot):
         r = subprocess.run(['patch', '-p1', '--no-backup-if-mismatch', '-s', '-i', patch], cwd=d + '/repo', stdout=subprocess.PIPE, stderr=subprocess.STDOUT, text=True)
         if r.returncode != 0:
             return {'patch': 'does not apply'}
-        env = dict(os.environ, SAVF_TARGET='target-w%d' % slot)
+        env = dict(os.environ, SAVF_TARGET='target-w%d-%d' % (os.getpid(), slot))
         env.pop('VERIF_TIER', None)
         res = {}
         for p in props:
@@ -58,7 +58,7 @@ def selftest(prop, jobs=8):
             out[kind][name] = res.get(prop, res)
     # the per-worker cargo target directories are a cache for this run only (several GB each): drop them
     import glob
-    for d_ in glob.glob(os.path.join(V, '.work', 'target-w*')):
+    for d_ in glob.glob(os.path.join(V, '.work', 'target-w%d-*' % os.getpid())):
         shutil.rmtree(d_, ignore_errors=True)
     killed = sum(1 for v in out['breaking'].values() if v.get('exit') == 1)
     silent = sum(1 for v in out['benign'].values() if v.get('exit') == 0)
